@@ -110,6 +110,28 @@ def ends_field(t):
     return False
 
 
+def regroup_py(t):
+    """what a formatter with exactly the open finding C08-F5 reads back: `x op (y op z)` printed through
+    the shortcut becomes `(x op y) op z` (python mirror of the model's `regroup`, used only to decide
+    whether a failure is *nothing but* the known regrouping)"""
+    if isinstance(t, str):
+        return t
+    h = t[0] if t and isinstance(t[0], str) else ""
+    if h in OPS and len(t) == 3:
+        if parens(h, t[1], t[2])[2]:
+            return graft_py(h, regroup_py(t[1]), t[2])
+        return [h, regroup_py(t[1]), regroup_py(t[2])]
+    return [regroup_py(c) for c in t]
+
+
+def graft_py(o, acc, r):
+    if not isinstance(r, str) and len(r) == 3 and r[0] == o and parens(o, r[1], r[2])[2]:
+        return graft_py(o, [o, acc, regroup_py(r[1])], r[2])
+    if not isinstance(r, str) and len(r) == 3 and r[0] == o:
+        return [o, [o, acc, regroup_py(r[1])], regroup_py(r[2])]
+    return [o, acc, regroup_py(r)]
+
+
 def bad_nodes(t, out=None):
     """nodes at which the printer drops parentheses the parser needs (python re-statement of the
     side condition, used only for known-finding classification). Returns list of finding ids."""
@@ -476,8 +498,13 @@ MODULE_TEMPLATES = [
 
 def gen_module(rng, steer):
     def ge():
+        if rng.chance(1, 6):
+            t = rng.pick(shape_family())
+            if steer and bad_nodes(t):
+                t = gen_atom(rng)
+            return render(t, rng) if rng.chance(1, 2) else render_min(t)
         for _ in range(6):
-            t = gen_tree(rng, rng.range(1, 3))
+            t = gen_tree(rng, rng.range(1, 3), ext=rng.chance(1, 2))
             if not steer or not bad_nodes(t):
                 break
         return render(t, rng) if rng.chance(1, 2) else render_min(t)
@@ -547,6 +574,7 @@ class Runner:
         self.trees = set()
         self.nontrivial = 0
         self.hist = {}
+        self.searched = False
 
     def violation(self, what, payload, key, no_input=False):
         if key in self.reported:
@@ -557,15 +585,24 @@ class Runner:
             return
         self.ctx.violation(what, payload, no_input=no_input)
 
-    def classify(self, t0_text):
-        """(known?, ids) for a failing input with original tree dump t0_text"""
+    def classify(self, t0_text, t1_text=None):
+        """(known?, ids) for a failing input with original tree dump t0_text and re-parsed dump t1_text:
+        known only if every deviating node belongs to an open finding AND the re-parsed tree is exactly
+        what those findings predict (for C08-F5: the regrouped tree) - a syntax error or any other tree
+        next to a known node is a new failure."""
         try:
-            ids = set(bad_nodes(sexp(t0_text)))
+            t0 = sexp(t0_text)
+            ids = set(bad_nodes(t0))
         except Exception:
-            ids = set()
-        if ids and all(i in self.open_ids for i in ids):
-            return True, ids
-        return False, ids
+            return False, set()
+        if not ids or not all(i in self.open_ids for i in ids):
+            return False, ids
+        if ids != {"C08-F5"} or t1_text is None:
+            return (t1_text is None and ids != {"C08-F5"}), ids
+        try:
+            return dump(regroup_py(t0)) == dump(sexp(t1_text)), ids
+        except Exception:
+            return False, ids
 
     def expr_batch(self, lines, label, model=True):
         """E/S lines through implementation (+ model); oracle + correspondence."""
@@ -601,7 +638,7 @@ class Runner:
                 if t0 == t1:
                     self.stats["expr_roundtrip_ok"] += 1
                 else:
-                    known, ids = self.classify(t0)
+                    known, ids = self.classify(t0, None if t1 == "rerr" else t1)
                     if known:
                         self.stats["expr_known_failures"] += 1
                     else:
@@ -625,8 +662,14 @@ class Runner:
             if ca != cm:
                 payload["broken"] = "correspondence `fmt-expr` (Model/Fmt.lean vs samlang-parser/samlang-printer): the theorems of Props/C08.lean no longer speak about this code"
                 payload["impl_canonical"], payload["model_canonical"] = ca, cm
+                no_input = (ca == "perr" or ca.split(";")[0] == ca.split(";")[2])
+                if no_input and l.startswith("E") and ca != "perr" and not self.searched:
+                    # the tie is broken here but this line itself still round-trips: look for a source text
+                    # on which the real formatter breaks the property (model-free oracle on neighbours)
+                    self.searched = True
+                    payload["search"] = self.search_near(ca.split(";")[0], label)
                 self.violation("model/implementation disagreement on protocol fmt-expr for `%s`: impl %s, model %s" % (src, ca, cm),
-                               payload, ("d", l), no_input=(ca == "perr" or ca.split(";")[0] == ca.split(";")[2]))
+                               payload, ("d", l), no_input=no_input)
                 continue
             if ca != "perr":
                 rt = ";rt=1" in m
@@ -647,6 +690,43 @@ class Runner:
                     payload["broken"] = "regroup e = e does not coincide with the real round trip"
                     self.violation("`regroup e = e` and the real formatter's round trip disagree", payload, ("r", l), no_input=ok)
 
+    def search_near(self, t0_text, label):
+        """targeted search after a tie disagreement: the shape families plus structural neighbours of
+        the disagreeing tree (sub-trees re-wrapped as operands of associative chains, comparisons, member
+        accesses, unary operators), through the model-free round-trip oracle of the real code."""
+        try:
+            tree = sexp(t0_text)
+        except Exception:
+            tree = "a"
+        cands = list(shape_family())
+        seen = set()
+        def subs(t):
+            yield t
+            for k in get_kids(t):
+                yield from subs(k)
+        pieces = []
+        for x in subs(tree):
+            d = dump(x)
+            if d not in seen and len(pieces) < 25:
+                seen.add(d); pieces.append(x)
+        for x in pieces:
+            for y in ([".", x, "d"], x):
+                for o in ("+", "*", "&&", "||", "-", "::"):
+                    cands += [[c, [o, "a", [o, "b", y]], "e"] for c in ("<", "<=", "==")]
+                    cands += [[c, "e", [o, "a", [o, "b", y]]] for c in ("<", "==")]
+                    cands += [[o, "a", [o, "b", y]], [o, [o, y, "b"], "a"]]
+                cands += [["<", y, "e"], ["<", ["neg", y], "e"], ["!", y], ["neg", y], ["call", y, "a"], ["lambda", ["params"], ["<", y, "e"]]]
+        n0 = len(self.ctx.violations)
+        lines = []
+        for t in cands[:1500]:
+            try:
+                lines.append(f"E 200 {hexs(render(t))}")
+            except Exception:
+                pass
+        for i in range(0, len(lines), 500):
+            self.expr_batch(lines[i:i + 500], label + " / search near a tie disagreement", model=False)
+        return {"candidates": len(lines), "concrete_failures_reported": len(self.ctx.violations) - n0}
+
     def shrink_expr(self, line, t0):
         """structural shrinking of a failing E input: replace the tree by sub-trees while the
         implementation still fails on it with no known cause."""
@@ -659,7 +739,7 @@ class Runner:
             if ca == "perr" or ";" not in ca:
                 return None
             a0, toks, a1 = ca.split(";")
-            return (a0, toks, a1) if a0 != a1 and not self.classify(a0)[0] else None
+            return (a0, toks, a1) if a0 != a1 and not self.classify(a0, None if a1 == "rerr" else a1)[0] else None
         best = None
         try:
             tree = sexp(t0)
@@ -700,7 +780,8 @@ class Runner:
             if a.startswith("rerr:") or a.startswith("diff:"):
                 # classification needs the original tree
                 _, d, _ = common.run_exec(common.harness_bin("C08"), [], [f"D {hexs(text)}"])
-                known, ids = self.classify(d[0] if d else "")
+                t1m = common.unhex(a.split(":")[2]).decode("utf-8", "replace") if a.startswith("diff:") else None
+                known, ids = self.classify(d[0] if d else "", t1m)
                 if known:
                     self.stats["module_known_failures"] += 1
                     continue
@@ -722,7 +803,8 @@ class Runner:
             if not (a.startswith("rerr:") or a.startswith("diff:")):
                 return False
             _, d, _ = common.run_exec(common.harness_bin("C08"), [], [f"D {hexs(chr(10).join(ls))}"])
-            return not self.classify(d[0] if d else "")[0]
+            t1m = common.unhex(a.split(":")[2]).decode("utf-8", "replace") if a.startswith("diff:") else None
+            return not self.classify(d[0] if d else "", t1m)[0]
         ls = text.split("\n")
         if len(ls) > 1 and fails(ls):
             ls = common.ddmin(ls, fails, max_tests=150)
@@ -753,6 +835,24 @@ def subtrees(t):
             for x in subtrees(k):
                 yield set_path(t, p, x)
             yield set_path(t, p, "a")
+
+
+def shape_family():
+    """right-nested same-operator chains (printed without parentheses through the shortcut) whose
+    innermost right operand ends in a member access / unary member / call, as left and right operand
+    of every comparison operator and under unary operators and member access"""
+    tails = [[".", "c", "d"], [".", ["call", "c"], "d"], ["neg", [".", "c", "d"]], ["call", [".", "c", "d"]],
+             [".", "c", "d", ["targs", "int"]], "c"]
+    out = []
+    for o in ("+", "*", "&&", "||"):
+        for tl in tails:
+            chains = [[o, "a", [o, "b", tl]], [o, "a", [o, "b", [o, "x", tl]]], [o, [o, "a", "b"], [o, "x", tl]],
+                      [o, "a", [o, [".", "b", "f"], tl]]]
+            for ch in chains:
+                for c in ("<", "<=", ">", ">=", "==", "!="):
+                    out += [[c, ch, "e"], [c, "e", ch], [c, ch, ["tuple", "f", "g"]]]
+                out += [["neg", ch], ["!", ch], [".", ch, "m"], ["call", "f", ch], ["<", ["neg", ch], "e"]]
+    return out
 
 
 def pair_enumeration():
@@ -786,6 +886,7 @@ def pair_enumeration():
                [".", ["call", [".", x, "foo"], "a"], "bar"]]
         for o in ("*", "-", "::", "==", "<", "&&", "||"):
             ts += [[o, x, "c"], [o, "c", x]]
+    ts += shape_family()
     ts += [["neg", "5"], ["neg", "-2147483648"], ["-", "1", "-2147483648"], ["-", "a", ["neg", "b"]],
            ["+", ["+", "a", ["+", "b", "c"]], ["*", ["*", "a", "b"], "c"]]]
     return ts
